@@ -166,7 +166,9 @@ C16_Checks(r) ==
   \cup (IF r.act = "ctor" THEN {<<"C16.nfkc", HasAny(r.args.s, NfkcDelims), C16_Nfkc(r.args.s, NfkcDelims, r.out)>>} ELSE {})
   \cup (IF r.act = "ctor" /\ ~r.args.encoded THEN {<<"C16.ctor_ipv6", TRUE, C16_CtorHost(r.args.s, r.out)>>} ELSE {})
   \cup (IF r.act = "with_host_self" /\ Has_(r, "self") /\ ~(OutOk(r) = FALSE /\ r.out.exc = "n/a")
-        THEN {<<"C16.selfhost." \o r.args.which, TRUE, C16_SelfHost(r.self, r.out)>>} ELSE {})
+        THEN {<<"C16.selfhost." \o r.args.which, TRUE, C16_SelfHost(r.self, r.out)>>}
+             \cup (IF r.args.which = "raw_host" THEN {<<"C16.selfhost_rejected", TRUE, C16_SelfHostRejected(r.self, r.out)>>} ELSE {})
+        ELSE {})
 
 \* ---------------------------------------------------------------- C18
 \* judged: absolute URLs built from decoded components (act = build, not encoded, with a scheme and a host)
